@@ -282,6 +282,7 @@ func runC15(c *Ctx) {
 // ---------------------------------------------------------------- C16
 
 func runC16(c *Ctx) {
+	errDiscipline(c, "C16.R8", pkgFuncs(c.P, "server/upstream", "server/proxy"), 4)
 	p := c.P
 	c.floor("C16.R1", 4)
 	var handlers []*ssa.Function
@@ -686,7 +687,7 @@ func c16Expiry(c *Ctx) {
 
 func c16Sessions(c *Ctx) {
 	p := c.P
-	c.floor("C16.R5", 3)
+	c.floor("C16.R5", 6)
 	sessF := p.Field(upPkg, "Server", "sessions")
 	if sessF == nil {
 		c.fail("C16.anchor", "Server.sessions", token.NoPos, "not found")
@@ -703,6 +704,27 @@ func c16Sessions(c *Ctx) {
 		case *ssa.Store:
 			c.check(strings.HasPrefix(fn.Name(), "New"), "C16.R5", key, x.Pos(), "the session set is created by the constructor", "the session set is replaced outside the constructor")
 		}
+	}
+	for _, sp := range []struct{ name, what string }{{"Server.addSession", "sessions[sess] = struct{}{}"}, {"Server.removeSession", "delete(sessions, sess)"}} {
+		fn := p.Func(upPkg, sp.name)
+		if fn == nil {
+			c.fail("C16.anchor", sp.name, token.NoPos, "not found")
+			continue
+		}
+		hit := func(i ssa.Instruction) bool {
+			switch x := i.(type) {
+			case *ssa.MapUpdate:
+				_, ok := loadedField(x.Map, sessF)
+				return ok && sp.name == "Server.addSession" && strip(x.Key) == ssa.Value(fn.Params[1])
+			case *ssa.Call:
+				if b, ok := x.Call.Value.(*ssa.Builtin); ok && b.Name() == "delete" {
+					_, ok := loadedField(x.Call.Args[0], sessF)
+					return ok && sp.name == "Server.removeSession" && strip(x.Call.Args[1]) == ssa.Value(fn.Params[1])
+				}
+			}
+			return false
+		}
+		c.check(everyPathEntry(fn, hit, nil, true) == nil, "C16.R5", fnName(fn)+"/effect", fn.Pos(), sp.what+" on every path", "the session bookkeeping primitive does not perform `"+sp.what+"`: shutdown and shedding cannot find (or keep finding) the session")
 	}
 	if shed := p.Func(upPkg, "Server.shedSessions"); shed != nil {
 		closes := len(findCalls(shed, "(*github.com/andydunstall/yamux.Session).Close"))
